@@ -369,7 +369,7 @@ func genC20(t *rapid.T) c20Case {
 }
 
 func TestVerifC20Graphs(t *testing.T) {
-	u := vk.Unit{Property: "C20", Name: "c20.graphs", Quick: 300, Thorough: 30000,
+	u := vk.Unit{Property: "C20", Name: "c20.graphs", Quick: 900, Thorough: 30000,
 		Rule: "directed link-state graphs on up to 8 nodes: the node's own neighbours appear (and some disappear again 0/2/20 ms before the recomputation), other nodes' link state arrives as DTLSR-block bundles (0..8 updates, several per origin with distinct and equal timestamps, links live or lost 1 ms .. 2 h ago) in generated order; then the recompute job runs; oracle: (a) per origin the retained link state is the update with the greatest timestamp (first arrival among equals); (b) an independent Floyd-Warshall over the graph the node holds (observed state), evaluated for every millisecond in the bracket around the recomputation: the table has an entry exactly for the reachable nodes and every next hop is an own neighbour on a least-cost path; (c) a unicast bundle is handed only to the table's next hop and then released; non-trivial = graph with >= 1 lost link and >= 2 routes of distinct cost to some node; distinct by case hash"}
 	vk.Check(t, u, genC20, c20Body)
 }
